@@ -287,6 +287,7 @@ def run(ctx):
                              fs, "<faultstring>" + edits)
     # document hooks over a two-document load and a warm document cache
     doc_checks(ctx)
+    dynamic_plugin_lists(ctx)
     ctx.sample(metas[min(50, len(metas) - 1)])
     ctx.sample(metas[-1])
 
@@ -387,6 +388,78 @@ def doc_checks(ctx):
                      {"stream": "object-cache-init"}, seen, [(0, None), (1, None), (2, None)])
     finally:
         shutil.rmtree(d, ignore_errors=True)
+
+
+def dynamic_plugin_lists(ctx):
+    """The plugins of a stage are the ones configured when the stage runs, each called once: (a) a plugin that takes
+    itself off the list during a stage does not make the next one lose its turn; (b) a received hook that blanks the
+    reply is obeyed (the reply is then empty, not the transport's bytes); (c) plugins changed between building a
+    request (nosend) and handing the reply to its RequestContext: the reply stages go to the current plugins."""
+    import suds.plugin
+    w = c09.make_wsdl("wrapped")
+    normal = c09.body_bytes("normal", "wrapped")
+    log = []
+
+    class OneShot(suds.plugin.MessagePlugin):
+        def __init__(self, lst):
+            self.lst = lst
+
+        def marshalled(self, context):
+            log.append("oneshot.marshalled")
+            if self in self.lst:
+                self.lst.remove(self)
+
+    class Tail(suds.plugin.MessagePlugin):
+        def __init__(self, name):
+            self.name = name
+
+        def marshalled(self, context):
+            log.append(self.name + ".marshalled")
+
+        def received(self, context):
+            log.append(self.name + ".received")
+
+    lst = []
+    lst.extend([OneShot(lst), Tail("t1"), Tail("t2")])
+    c = wsdlkit.client(w, plugins=lst, transport=wsdlkit.RecordingTransport(reply=suds.transport.Reply(200, {}, normal)))
+    ctx.case(("dynamic-plugins", "self-removal"), True)
+    c.service.f("x")
+    first = list(log)
+    del log[:]
+    c.service.f("x")
+    second = list(log)
+    want1 = ["oneshot.marshalled", "t1.marshalled", "t2.marshalled", "t1.received", "t2.received"]
+    want2 = ["t1.marshalled", "t2.marshalled", "t1.received", "t2.received"]
+    if first != want1 or second != want2:
+        ctx.fail("a plugin that takes itself off the list during a stage made another plugin lose its turn",
+                 {"stream": "dynamic-plugins"}, [first, second], [want1, want2])
+
+    class Blank(suds.plugin.MessagePlugin):
+        def received(self, context):
+            context.reply = b""
+    for retxml in (False, True):
+        ctx.case(("dynamic-plugins", "blanked-reply", retxml), True)
+        c2 = wsdlkit.client(w, plugins=[Blank()], retxml=retxml,
+                            transport=wsdlkit.RecordingTransport(reply=suds.transport.Reply(200, {}, normal)))
+        try:
+            got = c2.service.f("x")
+        except Exception as e:
+            got = repr(e)
+        if got not in (None, b""):
+            ctx.fail("a received hook that blanks the reply is not obeyed", {"stream": "dynamic-plugins", "retxml": retxml},
+                     repr(got)[:200], "None (an empty reply)")
+    del log[:]
+    ctx.case(("dynamic-plugins", "changed-before-reply"), True)
+    c3 = wsdlkit.client(w, plugins=[Tail("old")], nosend=True)
+    rc = c3.service.f("x")
+    c3.set_options(plugins=[Tail("new")])
+    try:
+        rc.process_reply(normal)
+    except Exception as e:
+        log.append(repr(e))
+    if log != ["old.marshalled", "new.received"]:
+        ctx.fail("the reply stages of a request built earlier do not go to the plugins configured now",
+                 {"stream": "dynamic-plugins"}, list(log), ["old.marshalled", "new.received"])
 
 
 def widen(ctx):
